@@ -38,6 +38,17 @@ _C = rb"[0-9a-fA-F]{8}-[0-9a-fA-F]{4}-[0-9a-fA-F]{4}-[0-9a-fA-F]{4}-[0-9a-fA-F]{
 JTI_RE = re.compile(rb"\A(?:" + _C + rb"|[uU][rR][nN]:[uU][uU][iI][dD]:" + _C + rb"|\{" + _C + rb"\}|[0-9a-fA-F]{32})\Z", re.DOTALL)
 
 
+def run_model(ctx, ops_p, model_p):
+    """the compiled model on the ops. When the driver does not exist (a regenerated fact no longer elaborates, so nm_C04 cannot be
+    built) the implementation-side oracles must still judge the implementation's outputs: an empty model.out, a failed obligation"""
+    try:
+        return ctx.model("C04", ops_p, model_p)
+    except OSError as e:
+        open(model_p, "w").close()
+        ctx._c04_nodriver = True
+        return False, f"model driver nm_C04 is not available ({e}); implementation-side oracles only"
+
+
 def first_seg(path):
     return path.strip("/").split("/")[0]
 
@@ -196,7 +207,7 @@ def run(ctx):
 
 def http_part(ctx, out):
     ops_p, impl_p, model_p = (os.path.join(out, x) for x in ("ops.jsonl", "impl.out", "model.out"))
-    ok, err = ctx.model("C04", ops_p, model_p)
+    ok, err = run_model(ctx, ops_p, model_p)
     ctx.oblige("model-driver-runs:http", ok, err[-500:])
     impl, model, bad = ctx.compare(impl_p, model_p)
     ops = ctx.read_lines(ops_p)
@@ -396,7 +407,7 @@ def http_part(ctx, out):
 
 def token_part(ctx, out):
     ops_p, impl_p, model_p = (os.path.join(out, x) for x in ("ops.jsonl", "impl.out", "model.out"))
-    ok, err = ctx.model("C04", ops_p, model_p)
+    ok, err = run_model(ctx, ops_p, model_p)
     ctx.oblige("model-driver-runs:tokenV2", ok, err[-500:])
     impl, model, bad = ctx.compare(impl_p, model_p)
     ops = ctx.read_lines(ops_p)
@@ -483,7 +494,7 @@ def _effective(op, key, defaults):
 
 def config_part(ctx, out, facts):
     ops_p, impl_p, model_p = (os.path.join(out, x) for x in ("ops.jsonl", "impl.out", "model.out"))
-    ok, err = ctx.model("C04", ops_p, model_p)
+    ok, err = run_model(ctx, ops_p, model_p)
     ctx.oblige("model-driver-runs:http/cmd", ok, err[-500:])
     impl, model, bad = ctx.compare(impl_p, model_p)
     ops = ctx.read_lines(ops_p)
@@ -528,14 +539,18 @@ def config_part(ctx, out, facts):
 
 
 def correspondence(ctx, name, impl, model, bad, ops, oracle_bad):
+    if getattr(ctx, "_c04_nodriver", False):
+        # no model output at all: already a failed obligation (driver build); the oracles above have judged the implementation alone
+        ctx.oblige(f"correspondence:{name}:model=impl", False, "model driver not available")
+        return
     if bad:
         i = bad[0]
         detail = (f"first differing line {i}\nop   : {ops[i][:600] if i < len(ops) else None}\nimpl : {impl[i][:300] if i < len(impl) else None}\n"
                   f"model: {model[i][:300] if i < len(model) else None}")
         ctx.oblige(f"correspondence:{name}:model=impl", False, f"{len(bad)} of {len(impl)} lines differ; " + detail[:900])
         if oracle_bad == 0 and i < len(ops):
-            with open(os.path.join(ctx.replay_dir(), f"correspondence-{name}.jsonl"), "w") as f:
+            with open(os.path.join(ctx.replay_dir(), f"correspondence-{name.replace('/', '-')}.jsonl"), "w") as f:
                 f.write(ops[i] + "\n")
-            ctx.unproved([f"correspondence C04/{name} (model.out != impl.out)"], detail + f"\nreplay ops: {ctx.replay_dir()}/correspondence-{name}.jsonl")
+            ctx.unproved([f"correspondence C04/{name} (model.out != impl.out)"], detail + f"\nreplay ops: {ctx.replay_dir()}/correspondence-{name.replace('/', '-')}.jsonl")
     else:
         ctx.oblige(f"correspondence:{name}:model=impl", True, f"{len(impl)} lines equal")
